@@ -64,6 +64,47 @@ func rtypeDerived(P *Program, v ssa.Value, depth int) (bool, string) {
 				return false, "field " + fname + ": " + why
 			}
 		}
+		// a parameter of an unexported module function that is never used as a value: every call site must pass one
+		if prm, isP := s.(*ssa.Parameter); isP {
+			f := prm.Parent()
+			idx := -1
+			for i, q := range f.Params {
+				if q == prm {
+					idx = i
+				}
+			}
+			exported := f.Object() != nil && f.Object().Exported()
+			if idx >= 0 && !exported && P.isModuleFunc(f) {
+				n, good, why := 0, true, ""
+				for _, g := range P.ModuleFuncs() {
+					for _, b := range g.Blocks {
+						for _, in := range b.Instrs {
+							for _, op := range in.Operands(nil) {
+								if *op != ssa.Value(f) {
+									continue
+								}
+								ci, isCall := in.(ssa.CallInstruction)
+								if !isCall || ci.Common().Value != ssa.Value(f) || idx >= len(ci.Common().Args) {
+									good, why = false, f.Name()+" is used as a value"
+									continue
+								}
+								n++
+								if ok2, w := rtypeDerived(P, ci.Common().Args[idx], depth+1); !ok2 {
+									good, why = false, w
+								}
+							}
+						}
+					}
+				}
+				if n > 0 && good {
+					continue
+				}
+				if n == 0 && why == "" {
+					why = "no call site of " + f.Name() + " found"
+				}
+				return false, "parameter " + prm.Name() + ": " + why
+			}
+		}
 		return false, "value " + s.String() + " does not come from unpackEFace(reflect.Type).data"
 	}
 	return true, ""
@@ -443,6 +484,13 @@ func ruleGCIter(c *Ctx, P *Program, tp *toolchainPkgs, target *types.Func, d lin
 			if cs.Static != nil && cs.Static.Name() == "mapiterinit" && isLinknameStub(cs.Static) {
 				if X, ok := addrOfVar(cs.Common.Args[2]); ok {
 					mine = X
+				} else if prm, isP := stripConv(cs.Common.Args[2]).(*ssa.Parameter); isP {
+					// a method of the iterator type passing its own receiver: every caller hands in a pointer to that type
+					if pt, isPtr := prm.Type().Underlying().(*types.Pointer); isPtr {
+						if _, isStruct := pt.Elem().Underlying().(*types.Struct); isStruct {
+							mine = pt.Elem()
+						}
+					}
 				}
 			}
 		}
